@@ -76,6 +76,12 @@ LONG_KEYS = ["LONGKEY_ABC", "A VERY LONG KEY", "A.B.C.D.E.F", "LONG KEY / SLASH"
              "K" * 20, "K" * 58, "K" * 59, "K" * 60, "K" * 65, "K" * 66, "K" * 67, "K" * 68, "K" * 70, "K" * 75, "K 2 3 4 5 6 7 8 9 0 1 2 3 4 5 6 7 8 9 0"]
 RESERVED_KEYS = ["TYPE", "TYPEX", "ORDER", "ORDER0", "NAXIS", "NAXIS1", "PERIOD3", "BITPIX", "SIMPLE", "EXTEND", "COMMENT", "COMMENTS", "ORDER OF THINGS", "BITPIXELS ARE"]
 NEAR_RESERVED = ["TYP", "ORDE", "PERIO", "XTYPE", "NAXI", "SIMPL", "ENDTIME", "HISTORYX", "ENDING", "XEND", "PCOUNTS", "COMMEN", "EXTNAMES", "EXTNAM", "HDUNAME2", "XHDUNAME"]
+# every whole-name reserved word extended past its end (one more character, a blank and more, beyond eight characters), cut short, and prefixed:
+# all of these are ordinary auxiliary keys
+for _w in ["END", "HISTORY", "CONTINUE", "PCOUNT", "GCOUNT", "EXTNAME", "HDUNAME"]:
+    for _k in (_w + "X", _w + "D RUN", _w + "FLAG", _w + " X", _w[:-1], "X" + _w, _w + "S AND MORE THINGS"):
+        if _k not in NEAR_RESERVED:
+            NEAR_RESERVED.append(_k)
 LOWER_KEYS = ["abc", "Key", "lowercase long key", "MiXED", "LONG KEY with lower", "a"]
 PUNCT_KEYS = ["A-B", "A_B", "A B", "A=B", "LONG=KEY=WITH=EQ", "A.B", "A/B", "LONGKEY9.", "#HASHLONGKEY", "A'B", "KEY WITH = SIGN"]
 # EXTNAME / HDUNAME: the names fits_movnam_hdu compares (the primary HDU included) when the reader looks for KNOTSn / EXTENTS; reserved since the
@@ -83,7 +89,7 @@ PUNCT_KEYS = ["A-B", "A_B", "A B", "A=B", "LONG=KEY=WITH=EQ", "A.B", "A/B", "LON
 STRUCT_KEYS = ["END", "HISTORY", "CONTINUE", "", "PCOUNT", "GCOUNT", "EXTNAME", "EXTNAME", "HDUNAME", "HDUVER", "BZERO", "BSCALE", "BLANK", "XTENSION", "HIERARCH", "DATE", "CHECKSUM", "GROUPS", "EXTVER"]
 BLANK_KEYS = [" LEADING SPACE", "TRAILING SPACE ", "HIERARCH ABC DEF", "HIERARCH X", "  TWO LEADING", "HIERARCH  TWOSP", "         ", "          X"]
 NONPRINT_KEYS = ["A\x01LONGKEYCTRL", "TAB\tINLONGKEY", "LONGKEY\xe9HIGH", "LONGKEYCTRL\x02"]
-KEY_CLASSES = [("short", SHORT_KEYS, 30), ("long", LONG_KEYS, 22), ("reserved", RESERVED_KEYS, 8), ("near", NEAR_RESERVED, 6), ("lower", LOWER_KEYS, 5),
+KEY_CLASSES = [("short", SHORT_KEYS, 30), ("long", LONG_KEYS, 22), ("reserved", RESERVED_KEYS, 8), ("near", NEAR_RESERVED, 9), ("lower", LOWER_KEYS, 5),
                ("punct", PUNCT_KEYS, 7), ("struct", STRUCT_KEYS, 10), ("blank", BLANK_KEYS, 5), ("nonprint", NONPRINT_KEYS, 1), ("random", None, 6)]
 KEY_CHARS = "ABCDEFGHIJKLMNOPQRSTUVWXYZ0123456789 -_.=/'abz"
 VAL_CHARS = "abcXYZ019 '/=&.-+_\"~#"
